@@ -15,6 +15,10 @@ def run(ctx):
     # a line break may not precede ".", "!." or a call's "(": postfix chains with line-break variants (shared with C02)
     r = ctx.tlc("postfix", "mc/MC_Grammar.tla", "mc/MC_Grammar_postfix.cfg", {"K": 8 if th else 7}, min_states=900000, timeout=3000, heap="12g")
     ctx.replay("postfix-replay", "grammar", r["dump"], min_cases=900000)
+    # line breaks at every place of 17 canonical sentences (every single-token near miss, among them every token replaced by its
+    # line-break variant): the parse may change only where the specification says so
+    r = ctx.tlc("near-miss", "mc/MC_NearMiss.tla", "mc/MC_NearMiss.cfg", min_states=6000, timeout=1800)
+    ctx.replay("near-miss-replay", "grammar", r["dump"], min_cases=6000)
     r = ctx.tlc("chars", "mc/MC_Chars.tla", "mc/MC_Chars.cfg", min_states=1000, workers=4)
     ctx.replay("chars-all-codepoints", "chars", r["dump"], min_cases=1000)
     tr = ctx.record("scan-random", "parse", ["-n", 40000 if th else 3000, "-maxlen", 120 if th else 60], env_extra=None)
